@@ -358,9 +358,79 @@ fn check_eof(bin: &PathBuf, rng: &mut Rng, roots: &[History], acc: &mut Acc, sid
     }
 }
 
+/// Standard input lost without an end of file: from some point on every read of the process
+/// fails (strace fault injection, EIO). Whatever the engine makes of that - ending with an error
+/// is fine - it must not stay behind as a process that spins.
+fn check_input_failure(bin: &PathBuf, rng: &mut Rng, acc: &mut Acc, sid: usize) {
+    let mut opts = SpawnOpts::default();
+    // reads of the start-up (dynamic loader) come first; the failure begins after 6-30 more
+    let from = 12 + rng.below(25) as u32;
+    opts.strace_read_fail_from = Some(from);
+    let mut eng = match bb::Engine::spawn(bin, &opts) {
+        Ok(e) => e,
+        Err(e) => {
+            acc.inconclusive.push(format!("spawn under strace failed: {}", e));
+            return;
+        }
+    };
+    eng.send("uci");
+    if eng.wait_for(|l| l == "uciok", WATCHDOG).is_none() {
+        // the failure began before the handshake was read: nothing to judge but the exit
+        if eng.wait_exit(Duration::from_secs(3)).is_none() && eng.cpu_seconds().is_some() {
+            acc.inconclusive.push("input failure before the handshake: process still alive".into());
+        }
+        return;
+    }
+    acc.evaluations += 1;
+    // one line per read until the engine stops answering (= its reads have begun to fail)
+    let mut answered = 0;
+    for _ in 0..60 {
+        eng.send(if rng.chance(1, 4) { "xyzzy" } else { "isready" });
+        if eng.transcript.last().map(|e| e.line == "isready").unwrap_or(false) {
+            if eng.wait_for(|l| l == "readyok", Duration::from_millis(400)).is_none() {
+                break;
+            }
+            answered += 1;
+        }
+        if eng.exited().is_some() {
+            break;
+        }
+    }
+    acc.feature("input_failure_after_the_handshake");
+    acc.distinct.insert(hash64(&format!("inputfail|{}|{}", from, sid)));
+    acc.count("isready_answered_before_the_input_failed", answered);
+    let script: Vec<String> = eng.transcript.iter().filter(|e| e.dir == Dir::Sent).map(|e| e.line.clone()).collect();
+    let case = json!({"kind": "session", "property": "C17", "script": script, "fault": format!("strace -e inject=read:error=EIO:when={}+", from)});
+    if eng.wait_exit(Duration::from_millis(500)).is_some() {
+        acc.count("input_failure_process_ended", 1);
+        return;
+    }
+    let c0 = eng.cpu_seconds();
+    let t0 = Instant::now();
+    let exited = eng.wait_exit(Duration::from_millis(600)).is_some();
+    let wall = t0.elapsed().as_secs_f64();
+    let c1 = eng.cpu_seconds();
+    if !exited {
+        if let (Some(a), Some(b)) = (c0, c1) {
+            // under strace every failing read is a round trip through the tracer, so the engine's own
+            // CPU share stays well below 100 % even when it spins; a process that waits for input
+            // uses none at all (and cannot be waiting here: its reads return at once with an error)
+            if b - a > 0.08 * wall {
+                acc.violation(
+                    format!("C17|input-failure-spin|{}", sid % 4),
+                    format!("standard input lost without an end of file (every read fails with EIO from the {}th on, {} isready answered before): the process stays alive and burns CPU ({:.0} ms CPU in {:.0} ms wall)", from, answered, (b - a) * 1000.0, wall * 1000.0),
+                    case,
+                );
+                return;
+            }
+        }
+        acc.count("input_failure_process_alive_and_idle", 1);
+    }
+}
+
 pub fn run(tier: Tier, seed: u64) -> i32 {
     let mut run = Run::new("C17", tier, seed, "exploration");
-    run.rule = "evaluation = one observation on a session of the real binary: (a) an isready probe after unknown lines, (b) the bestmove sequence of a script of well-formed commands (position + zero-slice go chains with unknown go tokens, ucinewgame, isready) with unknown/garbage lines inserted at random points compared with the same script without them, and with surplus blanks/tabs/trailing CR in the well-formed commands, (c) no 'panicked' on stderr and no exit, (d) quit ends the process within 2 s (solo-confirmed), (b') the same script with its unknown lines written without waiting for any reply (one write / per line / pieces that cut lines in two) and ended by quit or end of input: same answers in the same order, the process gone within 2 s of the last answer and not spinning, (e) closing stdin before uci / after the handshake / mid-session / right after a timed go / in the middle of a line (no final newline) ends the process within slice + 2 s and it does not burn CPU meanwhile (process CPU time vs wall time over 300 ms). Unknown lines: empty, blanks/tabs, unknown words, random printable ASCII, Unicode, BOM, comment-like, 3000-character lines, lines of up to a megabyte, long lines made of command words, command words with a control or invisible character inside, NUL bytes and lone carriage returns, bytes that are not valid UTF-8; never starting with a command word. Non-trivial = every script / EOF session; distinct by seed index".into();
+    run.rule = "evaluation = one observation on a session of the real binary: (a) an isready probe after unknown lines, (b) the bestmove sequence of a script of well-formed commands (position + zero-slice go chains with unknown go tokens, ucinewgame, isready) with unknown/garbage lines inserted at random points compared with the same script without them, and with surplus blanks/tabs/trailing CR in the well-formed commands, (c) no 'panicked' on stderr and no exit, (d) quit ends the process within 2 s (solo-confirmed), (b') the same script with its unknown lines written without waiting for any reply (one write / per line / pieces that cut lines in two) and ended by quit or end of input: same answers in the same order, the process gone within 2 s of the last answer and not spinning, (e) closing stdin before uci / after the handshake / mid-session / right after a timed go / in the middle of a line (no final newline) ends the process within slice + 2 s and it does not burn CPU meanwhile (process CPU time vs wall time over 300 ms). Unknown lines: empty, blanks/tabs, unknown words, random printable ASCII, Unicode, BOM, comment-like, 3000-character lines, lines of up to a megabyte, long lines made of command words, command words with a control or invisible character inside, NUL bytes and lone carriage returns, bytes that are not valid UTF-8; never starting with a command word. Non-trivial = every script / EOF session; distinct by seed index (g) input failure: from a point after the handshake on every read system call of the process fails with EIO (strace fault injection) - standard input lost without an end of file; the process may end with an error, it must not stay alive burning CPU.".into();
     run.assumptions = vec![
         "garbage lines include byte sequences that are not valid UTF-8 (a line is whatever ends with a newline)".into(),
         "lines that begin with a known command word but are malformed are not 'unknown input' and are excluded".into(),
@@ -375,6 +445,9 @@ pub fn run(tier: Tier, seed: u64) -> i32 {
     };
     let roots = session_roots(seed ^ 17, tier.pick(80, 600));
     let n_scripts = tier.pick(160usize, 3000);
+    // strace may be unavailable (ptrace forbidden): then the input-failure sessions are left out
+    let strace_ok = std::process::Command::new("strace").args(["-f", "-q", "-e", "trace=read", "-e", "inject=read:error=EIO:when=60000+", "-o", "/dev/null", "true"]).output().map(|o| o.status.success()).unwrap_or(false);
+    run.set("strace_read_fault_injection_available", json!(strace_ok));
     let res = run_parallel(16, n_scripts, |sid| {
         let mut acc = Acc::new();
         let mut slow = Vec::new();
@@ -459,6 +532,9 @@ pub fn run(tier: Tier, seed: u64) -> i32 {
             }
         }
         check_eof(&plain, &mut rng, &roots, &mut acc, sid);
+        if sid % 4 == 1 && strace_ok {
+            check_input_failure(&plain, &mut rng, &mut acc, sid);
+        }
         (acc, slow)
     });
     let mut slow_all = Vec::new();
